@@ -13,6 +13,7 @@ from . import codec
 
 _CURRENT = None
 _CASES = None
+_TIMEOUTS = mp.Value('i', 0)      # cases of the running stage that did not terminate (shared with the forked workers)
 
 
 def _worker(span):
@@ -29,6 +30,11 @@ def _index_of(cases, lo, hi, c):
     return 0
 
 
+def _cap_memory():
+    from .driver import _cap_memory as cap
+    cap()
+
+
 class _CaseTimeout(BaseException):
     pass
 
@@ -42,7 +48,7 @@ class Stage:
 
     def __init__(self, name, prop, cases, check, bound, classify=None, nontrivial=None,
                  parallel=True, exhaustive=False, assumptions=(), max_report=5, weight=None,
-                 exact_file=None, exact_applies=None, case_key=None, case_timeout=120.0):
+                 exact_file=None, exact_applies=None, case_key=None, case_timeout=30.0):
         self.name, self.prop, self.cases, self.check = name, prop, cases, check
         self.bound, self.classify, self.nontrivial = bound, classify, nontrivial
         self.parallel, self.exhaustive = parallel, exhaustive
@@ -67,14 +73,23 @@ class Stage:
             raise _CaseTimeout()
         if use_alarm:
             old = signal.signal(signal.SIGALRM, on_alarm)
+        timeouts = 0
         try:
             for case in chunk:
+                if timeouts >= 3 or _TIMEOUTS.value >= 6:
+                    break       # the code under test hangs: a few reported cases are enough, the check must end
                 try:
                     if use_alarm:
                         signal.setitimer(signal.ITIMER_REAL, limit)
                     d = self.check(case)
                 except _CaseTimeout:
                     d = 'did not terminate within %g s' % limit
+                    timeouts += 1
+                    with _TIMEOUTS.get_lock():
+                        _TIMEOUTS.value += 1
+                except MemoryError:
+                    d = 'ran out of memory'
+                    timeouts += 1
                 except Exception as ex:
                     d = 'check raised %s: %s' % (type(ex).__name__, str(ex)[:200])
                 finally:
@@ -89,6 +104,7 @@ class Stage:
 
     def run(self, tier, seed, known):
         rng = random.Random(seed)
+        _TIMEOUTS.value = 0
         cases = list(self.cases(tier, rng))
         n = len(cases)
         seen = set()
@@ -107,7 +123,7 @@ class Stage:
             spans = [(i, min(i + size, n)) for i in range(0, n, size)]
             global _CURRENT, _CASES
             _CURRENT, _CASES = self, cases
-            with mp.get_context('fork').Pool(jobs) as pool:
+            with mp.get_context('fork').Pool(jobs, initializer=_cap_memory) as pool:
                 for part in pool.imap_unordered(_worker, spans):
                     fails.extend((cases[i], d) for i, d in part)
         else:
